@@ -417,6 +417,14 @@ def s_getitem(obj, key):
                     return v
             raise KeyError(key)
         return obj[core.concretize(key, limit=256)]
+    if isinstance(key, SBytes):
+        if isinstance(obj, dict):
+            n = len(key.b)
+            for k in obj:
+                if isinstance(k, (bytes, bytearray)) and len(k) == n and core_b(key == k):
+                    return obj[k]
+            raise KeyError(key)
+        return obj[key]
     if isinstance(key, (SChoice, SEnum)):
         if isinstance(obj, dict):
             for k in obj:
